@@ -64,6 +64,20 @@ theorem fact_filter_shape :
   unfold Generated.C03.filterAllocatesWhen
   cases r <;> cases z <;> cases n <;> rfl
 
+/-- The quota behind the `usedCount >= replicas` gate of a deployment without sized pool is `spec.replicas` and nothing
+    else: `getReplicasOfDeployment` assigns `int(*obj.Spec.Replicas)` (0 when the deployment is unknown) and
+    `getDpReplicas` returns exactly that value (no surge allowance, no other field of the object); with a Pool object the
+    quota is `Pool.size` (`dpReplicasShape`).  The model's `getDpReplicas` is that function over the lister views. -/
+theorem fact_dp_quota_is_spec_replicas :
+    Generated.C03.dpReplicasIsSpecReplicas = true ∧ Generated.C03.dpReplicasShape = true ∧
+    Generated.C03.dpMissingMeansZeroReplicas = true ∧
+    ∀ (s : State) (k : Key),
+      getDpReplicas s k =
+        match (if k.pool ≠ "" then s.vPoolObjs.get k.pool else none) with
+        | some size => (size, true)
+        | none => ((s.vApps.get (Kind.dp, k.ns, k.app)).getD 0, false) :=
+  ⟨by decide, by decide, by decide, fun _ _ => rfl⟩
+
 /-- `allocateDuringFilter` returns the error of `allocateInSubnetWithKey` without falling through to a fresh
     allocation. -/
 theorem fact_no_fall_through_to_fresh_allocation : Generated.C03.allocateDuringFilterNoFallThrough = true := by decide
@@ -191,6 +205,19 @@ theorem dp_replacement_takes_reserved (s : State) (ns name : String) (nodes : Li
     ((filter s ns name nodes ch).2.res ≠ .ok →
       (filter s ns name nodes ch).1.alloc = s.alloc ∧ (filter s ns name nodes ch).2.nodes = []) :=
   filter_takes_reserved s ns name nodes ch pod hp hw hr hown hdp hpol hres hquota
+
+/-- The rolling-update order "replacement pod filtered BEFORE the old pod's address came back" (old pod still terminating,
+    or its delete event not yet delivered): a deployment / pool pod with policy immutable or never that owns nothing,
+    while the addresses in use under its app / pool prefix already number `spec.replicas` (resp. `Pool.size`) - the quota
+    of `fact_dp_quota_is_spec_replicas`, nothing added - is refused with the size-limit error ("wait for releasing"),
+    for every choice; no record changes, no node is offered.  So it cannot be bound with a fresh address while the old
+    pod's address is on its way into the reserve; once that address is there, `dp_replacement_takes_reserved` applies. -/
+theorem dp_replacement_waits_at_quota (s : State) (ns name : String) (nodes : List String) (ch : Choice) (pod : Pod)
+    (hp : Tbl.get s.pods (ns, name) = some pod) (hw : pod.wants = true) (hr : pod.ranges = [])
+    (hown : ipsOfKey s (keyOf pod) = []) (hdp : (keyOf pod).isDp = true) (hpol : policyOf pod ≠ 0)
+    (hquota : (getDpReplicas s (keyOf pod)).1 ≤ usedCountG s (keyOf pod) (getDpReplicas s (keyOf pod)).2) :
+    filter s ns name nodes ch = (s, Out.err "size-limit") :=
+  filter_at_quota_waits s ns name nodes ch pod hp hw hr hown hdp hpol hquota
 
 /-- "... and bind hands exactly that IP": after Filter re-keyed the reserved address `ip` to the pod's key (the key
     owned nothing before), the key owns exactly `ip`, and a successful Bind in that state - or in any later state in
